@@ -1,0 +1,72 @@
+//go:build verif
+
+// Contracts for gvc (/verif). Comment-only: this file adds no declarations.
+
+package vars
+
+// C14: element assignment and deletion rebind only the assigned variable, to the
+// nested assoc/dissoc of its old value, and never change any other value.
+//
+// Each function is verified under the immutability frame (`nowrite`): every
+// store it performs goes to objects it allocated itself, the only calls it makes
+// are to the container operations of pkg/eval/vals (themselves under `nowrite`:
+// they build new values) and - as the single declared effect - Set on the head
+// variable. The ghost call log pins down WHICH calls are made: the fold of
+// vals.Assoc from the innermost container outwards, then exactly one Set.
+
+// a variable's Get only reads (assumed for every Var implementation)
+//@ func Var.Get
+//@   trusted
+//@   pure
+
+// MakeElement only reads: it indexes into the current value to collect the
+// containers along the path; nothing is set.
+//@ func MakeElement
+//@   props C14
+//@   nowrite
+//@   requires len(indices) >= 1
+//@   log Var.Get Var.Set vals.Index
+//@   loop 1 invariant len(assocers) == len(indices) && ncallsof("Var.Set") == 0 && ncallsof("Var.Get") == 1
+//@   exit [reads-only] ncallsof("Var.Set") == 0 && ncallsof("Var.Get") == 1 && callis(0, "Var.Get")
+
+// elem.Set: v_n = v0, v_k = Assoc(assocers[k], indices[k], v_{k+1}); the head
+// variable is set exactly once, to v_0, and only if every Assoc succeeded; the
+// only object written directly is the element variable itself.
+//@ func elem.Set
+//@   props C14
+//@   nowrite
+//@   writes *ev
+//@   effects Var.Set
+//@   requires len(ev.assocers) == len(ev.indices) && len(ev.assocers) >= 1
+//@   log vals.Assoc Var.Set
+//@   loop 1 invariant -1 <= i && i < len(ev.assocers) && ncalls == len(ev.assocers) - 1 - i && ncallsof("Var.Set") == 0
+//@   loop 1 invariant ev === old(ev) && len(ev.assocers) == old(len(ev.assocers)) && len(ev.indices) == len(ev.assocers)
+//@   loop 1 invariant forall k int :: 0 <= k && k < ncalls ==> callis(k, "vals.Assoc") && callerr(k) === nil && callarg(k) === ev.assocers[len(ev.assocers) - 1 - k] && callarg1(k) === ev.indices[len(ev.assocers) - 1 - k]
+//@   loop 1 invariant ncalls == 0 ==> v === v0
+//@   loop 1 invariant ncalls >= 1 ==> v === callres(ncalls - 1)
+//@   loop 1 invariant forall k int :: 1 <= k && k < ncalls ==> callarg2(k) === callres(k - 1)
+//@   loop 1 invariant ncalls >= 1 ==> callarg2(0) === v0
+//@   exit [variable-set-at-most-once] ncallsof("Var.Set") <= 1
+//@   exit [not-set-when-an-assoc-fails] (forall k int :: 0 <= k && k < ncalls && callis(k, "vals.Assoc") ==> callerr(k) === nil) || ncallsof("Var.Set") == 0
+//@   exit [set-to-the-nested-assoc] ncallsof("Var.Set") == 1 ==> ncalls == old(len(ev.assocers)) + 1 && callis(ncalls - 1, "Var.Set") && callarg(ncalls - 1) === callres(ncalls - 2) && callfn(ncalls - 1) === 0
+//@   exit [innermost-assoc-gets-the-new-value] ncalls >= 1 && callis(0, "vals.Assoc") ==> callarg2(0) === v0
+//@   exit [each-assoc-wraps-the-previous-result] forall k int :: 1 <= k && k < ncalls && callis(k, "vals.Assoc") ==> callarg2(k) === callres(k - 1)
+
+// DelElement: the innermost container loses the key (Dissoc), the containers
+// above are rebuilt by Assoc from the inside out, and the variable is set exactly
+// once at the end - or not at all when anything fails.
+//@ func DelElement
+//@   props C14
+//@   nowrite
+//@   effects Var.Set
+//@   requires len(indices) >= 1
+//@   log Var.Get vals.Index vals.Dissoc vals.Assoc Var.Set
+//@   loop 1 invariant len(assocers) == len(indices) - 1 && ncallsof("Var.Set") == 0 && ncallsof("vals.Dissoc") == 0 && ncallsof("vals.Assoc") == 0
+//@   loop 1 invariant forall k int :: 0 <= k && k < ncalls ==> !callis(k, "vals.Assoc")
+//@   loop 2 invariant -1 <= i && i < len(assocers) && ncallsof("Var.Set") == 0 && ncallsof("vals.Dissoc") == 1 && ncallsof("vals.Assoc") == len(assocers) - 1 - i
+//@   loop 2 invariant ncallsof("vals.Assoc") == 0 ==> v === callres(ncalls - 1) && callis(ncalls - 1, "vals.Dissoc")
+//@   loop 2 invariant ncallsof("vals.Assoc") >= 1 ==> v === callres(ncalls - 1) && callis(ncalls - 1, "vals.Assoc")
+//@   loop 2 invariant forall k int :: 0 <= k && k < ncalls && callis(k, "vals.Assoc") ==> callerr(k) === nil && callarg2(k) === callres(k - 1)
+//@   exit [variable-set-at-most-once-and-last] ncallsof("Var.Set") <= 1 && (ncallsof("Var.Set") == 1 ==> callis(ncalls - 1, "Var.Set") && callarg(ncalls - 1) === callres(ncalls - 2))
+//@   exit [set-only-after-one-dissoc-and-all-assocs] ncallsof("Var.Set") == 1 ==> ncallsof("vals.Dissoc") == 1 && ncallsof("vals.Assoc") == len(indices) - 1
+//@   exit [each-assoc-wraps-the-previous-result] forall k int :: 0 <= k && k < ncalls && callis(k, "vals.Assoc") ==> callarg2(k) === callres(k - 1)
